@@ -9,8 +9,10 @@ pub mod c10;
 pub mod c11;
 pub mod c13;
 pub mod c14;
+pub mod c15;
 pub mod c16;
 pub mod c17;
+pub mod c19;
 pub mod common;
 
 use crate::report::{Evidence, Stats, report_violations, stats_to_json};
@@ -77,8 +79,10 @@ pub fn dispatch(id: &str) -> Option<(fn(Tier) -> i32, fn(&Value) -> String)> {
         "C11" => Some((c11::run, c11::replay)),
         "C13" => Some((c13::run, c13::replay)),
         "C14" => Some((c14::run, c14::replay)),
+        "C15" => Some((c15::run, c15::replay)),
         "C16" => Some((c16::run, common::replay_lockstep)),
         "C17" => Some((c17::run, c17::replay)),
+        "C19" => Some((c19::run, c19::replay)),
         _ => None,
     }
 }
